@@ -37,6 +37,12 @@ func genC06Case(t *rapid.T) SSOCase {
 	c.Style = genXMLStyle(t)
 	binding := rapid.SampledFrom([]string{"post", "redirect"}).Draw(t, "transport")
 	c.Tr = genTransport(t, binding)
+	if rapid.IntRange(0, 5).Draw(t, "keyfault") == 0 {
+		// the IdP cannot read its own signing key while this request is served; the request is signed by its provider (an IdP
+		// that cannot describe itself may insist on that) - no validity condition is waived by the IdP's own trouble
+		c.KeyFault = rapid.SampledFrom([]string{"error", "nil", "nokey", "emptycert", "timeout"}).Draw(t, "keyfaultkind")
+		c.Sign, c.RSign = signFor(t, spec, c.SP, binding)
+	}
 	switch mode := rapid.SampledFrom([]string{"defects", "defects", "defects", "bytes", "valid"}).Draw(t, "mode"); mode {
 	case "defects":
 		n := rapid.IntRange(1, 2).Draw(t, "ndefects")
